@@ -347,6 +347,100 @@ for splice in (True, False):
         except OSError:
             pass
     px.stop(); hop.stop()
+# ---- a QUIC client that never finishes its handshake (its Initial packets arrive, the answers are lost): other QUIC
+#      clients must still be accepted. The "client" is a redproxy hop whose packets pass a one-way UDP forwarder.
+class OneWayForwarder:
+    def __init__(self, dst_port):
+        self.f = socket.socket(socket.AF_INET, socket.SOCK_DGRAM)
+        self.f.bind(('127.0.0.1', 0))
+        self.port = self.f.getsockname()[1]
+        self.u = socket.socket(socket.AF_INET, socket.SOCK_DGRAM)
+        self.u.bind(('127.0.0.1', 0))
+        self.dst = ('127.0.0.1', dst_port)
+        self.forwarded = 0
+        self.dropped = 0
+        self.stop = False
+        threading.Thread(target=self._up, daemon=True).start()
+        threading.Thread(target=self._down, daemon=True).start()
+    def _up(self):
+        self.f.settimeout(0.2)
+        while not self.stop:
+            try:
+                d, a = self.f.recvfrom(70000)
+            except OSError:
+                continue
+            self.u.sendto(d, self.dst)
+            self.forwarded += 1
+    def _down(self):
+        self.u.settimeout(0.2)
+        while not self.stop:
+            try:
+                d, a = self.u.recvfrom(70000)
+            except OSError:
+                continue
+            self.dropped += 1          # the answers never reach the client
+    def close(self):
+        self.stop = True
+        time.sleep(0.3)
+        self.f.close(); self.u.close()
+
+def quic_hop(server_port, name):
+    hp_ = free_port()
+    h = Proxy({'listeners': [{'name': 'http', 'bind': f'127.0.0.1:{hp_}'}],
+               'connectors': [{'name': 'q', 'type': 'quic', 'server': 'localhost', 'port': server_port, 'bind': '127.0.0.1:0', 'tls': TLSC}],
+               'rules': [{'target': 'q'}]}, name)
+    if not h.start([hp_]):
+        machinery(f'{name} did not start: ' + h.log()[-300:])
+    return h, hp_
+
+pq = {k: free_port() for k in ('quic', 'api')}
+pxq = Proxy({'listeners': [{'name': 'quic', 'type': 'quic', 'bind': f"127.0.0.1:{pq['quic']}", 'tls': TLSS}], 'connectors': [{'name': 'direct'}], 'rules': [{'target': 'direct'}],
+             'metrics': {'bind': f"127.0.0.1:{pq['api']}", 'ui': None}}, 'c14ql')
+pxq.api_port = pq['api']
+if not pxq.start([pq['api']]):
+    machinery('quic listener proxy did not start: ' + pxq.log()[-300:])
+def through(hport, deadline):
+    s, code, head, rest = http_connect(hport, f'127.0.0.1:{echo.port}', timeout=deadline)
+    try:
+        if code != 200:
+            return f'CONNECT -> {head[:40]!r}'
+        s.settimeout(deadline)
+        s.sendall(b'ping')
+        return None if recv_exact(s, 4, deadline) == b'ping' else 'no echo'
+    finally:
+        s.close()
+h0, h0p = quic_hop(pq['quic'], 'c14q0')
+v, dt = run_probe(lambda: through(h0p, DEADLINE))
+if v:
+    machinery(f'QUIC path does not work on an idle proxy: {v}')
+fwd = OneWayForwarder(pq['quic'])
+h1, h1p = quic_hop(fwd.port, 'c14q1')
+def stalled():
+    try:
+        through(h1p, 8)
+    except Exception:
+        pass
+threading.Thread(target=stalled, daemon=True).start()
+t0 = time.time()
+while fwd.forwarded == 0 and time.time() - t0 < 3:
+    time.sleep(0.05)
+time.sleep(0.5)
+if fwd.forwarded == 0:
+    machinery('the stalled QUIC client never sent its Initial')
+h2, h2p = quic_hop(pq['quic'], 'c14q2')
+for name, fn in (('fresh:quic (new connection)', lambda: through(h2p, DEADLINE)), ('fresh:quic (established connection)', lambda: through(h0p, DEADLINE)),
+                 ('api:GET /live', lambda: (None if pxq.api('GET', '/live', timeout=DEADLINE)[0] == 200 else 'no answer'))):
+    v, dt = run_probe(fn)
+    evals += 1
+    worst = max(worst, dt)
+    distinct.add(('quic-handshake-stalled', name))
+    if v:
+        chk.violation('stall.quic-client-inside-handshake', f'{v.split(":")[0]}:{name}', f'with one QUIC client whose handshake never completes ({fwd.forwarded} packets from it arrived, {fwd.dropped} answers were lost on the way back), {name}: {v} after {dt:.1f}s', {'probe': name})
+samples.append({'quic_stalled_handshake': {'client_packets': fwd.forwarded, 'answers_dropped': fwd.dropped}})
+fwd.close()
+for h in (h0, h1, h2, pxq):
+    h.stop()
+
 # ---- teardown of tunnels that are blocked on a slow peer: with timeouts.idle = 2 the proxy itself ends 32 tunnels
 #      whose peer has stopped reading (unsent bytes queued); while it does so everything else must keep being served
 for splice in (True, False):
@@ -424,6 +518,6 @@ if evals < 500 or len(distinct) < 100:
     machinery(f'vacuous: evals={evals} distinct={len(distinct)}')
 cov = {'evaluations': evals, 'states': nstates, 'distinct_nontrivial': len(distinct), 'transitions': evals, 'traces_validated_against_impl': evals,
        'worst_probe_latency_s': round(worst, 3), 'deadline_s': DEADLINE,
-       'rule': 'stalled states = client stopped after k bytes of the handshake (k = every offset in thorough, a stride + first/last in quick) for http, socks5, socks5+auth, socks4, socks4a, inside the TLS handshake and behind it for https / socks+tls; hanging auth command; request stuck on an upstream proxy that never replies / is mute (http, socks, TLS) entered via http and socks5; tunnel whose origin / client does not read (http, socks5, reverse); x useSplice true/false; each state alone and all together (3 probe rounds); plus the proxy-initiated teardown (timeouts.idle = 2) of 32 tunnels whose peer stopped reading, probed for 7 s. probes = 7 API calls (live, status, history, metrics, rules GET, rules POST, logrotate) then a fresh echo round trip on http, https, socks5, socks5+tls, socks5+auth, socks4, reverse and the QUIC listener (through a second proxy), then live and rules again; every probe must answer within the deadline',
+       'rule': 'stalled states = client stopped after k bytes of the handshake (k = every offset in thorough, a stride + first/last in quick) for http, socks5, socks5+auth, socks4, socks4a, inside the TLS handshake and behind it for https / socks+tls; hanging auth command; request stuck on an upstream proxy that never replies / is mute (http, socks, TLS) entered via http and socks5; tunnel whose origin / client does not read (http, socks5, reverse); x useSplice true/false; each state alone and all together (3 probe rounds); plus a QUIC client whose handshake never completes (answers dropped by a one-way forwarder) with a new QUIC connection, an established one and the API probed; plus the proxy-initiated teardown (timeouts.idle = 2) of 32 tunnels whose peer stopped reading, probed for 7 s. probes = 7 API calls (live, status, history, metrics, rules GET, rules POST, logrotate) then a fresh echo round trip on http, https, socks5, socks5+tls, socks5+auth, socks4, reverse and the QUIC listener (through a second proxy), then live and rules again; every probe must answer within the deadline',
        'schedule_control': 'kernel', 'samples': samples}
 sys.exit(chk.finish('model_checking', cov, ['E4 part: real loopback sockets, kernel scheduling uncontrolled; deadlines are 3 s against millisecond expectations; TPROXY and UDP sessions are not stalled; a QUIC client stalled inside its own handshake is not built (QUIC is probed as a fresh connection only)']))
